@@ -98,6 +98,17 @@ def n_adapt(it, a, d, m):
         xs = [src.pop(it) for _ in range(len(src.items))] if src.maps else src.items
         ys = [other.pop(it) for _ in range(len(other.items))] if other.maps else other.items
         return It([[x, y] for x, y in zip(xs, ys)])
+    if kind == "flat_map":
+        span = re.search(r"\{closure@([^}]*)\}", m.group(0))
+        fn = closure_fn(it, span.group(1))
+        out = []
+        for _ in range(len(src.items)):
+            sub = pm.deref(call_closure(it, fn, a[1], [src.pop(it)]))
+            if isinstance(sub, It):
+                out += [sub.pop(it) for _ in range(len(sub.items))]
+            else:
+                out += list(sub)
+        return It(out)
     if kind == "chain":
         other = pm.deref(a[1])
         if isinstance(other, list):
@@ -155,8 +166,8 @@ def n_vec_push(it, a, d, m):
 NATIVES = [
     (R(r"core::slice::<impl \[.*\]>::iter"), n_iter),
     (R(r"<&?(?:mut )?(?:std::vec::)?Vec<.*> as IntoIterator>::into_iter|<&\[.*\] as IntoIterator>::into_iter|<&\[.*; \d+\] as IntoIterator>::into_iter|<\[.*; \d+\] as IntoIterator>::into_iter"), n_into_iter),
-    (R(r"<(?:std::iter::)?(?:Take|Skip|Rev|Enumerate|Zip|Chain|Map|Copied|Cloned)<.*> as IntoIterator>::into_iter|<std::slice::Iter<'_, .*> as IntoIterator>::into_iter|<std::vec::IntoIter<.*> as IntoIterator>::into_iter"), pm.n_identity),
-    (R(r"<.* as (?:Iterator|DoubleEndedIterator)>::(take|skip|rev|enumerate|zip|chain|copied|cloned|map|next|collect)(?:::<.*>)?"), n_adapt),
+    (R(r"<(?:std::iter::)?(?:Take|Skip|Rev|Enumerate|Zip|Chain|FlatMap|Map|Copied|Cloned)<.*> as IntoIterator>::into_iter|<std::slice::Iter<'_, .*> as IntoIterator>::into_iter|<std::vec::IntoIter<.*> as IntoIterator>::into_iter"), pm.n_identity),
+    (R(r"<.* as (?:Iterator|DoubleEndedIterator)>::(take|skip|rev|enumerate|zip|chain|flat_map|copied|cloned|map|next|collect)(?:::<.*>)?"), n_adapt),
     (R(r"<(?:std::vec::)?Vec<.*> as Index<(?:std::ops::)?(RangeTo|RangeFrom|Range)<usize>>>::index|core::slice::index::<impl Index<(?:std::ops::)?(RangeTo|RangeFrom|Range)<usize>> for \[.*\]>::index"), n_index_range),
     (R(r"<\[.*\] as Index<(?:std::ops::)?(RangeTo|RangeFrom|Range)<usize>>>::index"), n_index_range),
     (R(r"<(?:std::vec::)?Vec<.*> as TryInto<\[.*; (\d+)\]>>::try_into"), n_try_into_array),
